@@ -168,6 +168,7 @@ fn replay_one(v: &Value) -> Result<u64, Value> {
             .symbol_fn("ImplGateLess", |_| TypedProbe { ty: "ImplGateLess" })
             .symbol_fn("ImplWrongSub", |_| TypedProbe { ty: "ImplWrongSub" })
             .symbol_fn("GBox", |_| TypedProbe { ty: "GBox" })
+            .symbol_fn("Pair", |_| TypedProbe { ty: "Pair" })
             .symbol_fn("Box", |_| TypedProbe { ty: "Box" })
             .symbol_fn("Mid", |_| TypedProbe { ty: "Mid" })
             .symbol_fn("Main", |_| TypedProbe { ty: "Main" });
